@@ -55,8 +55,23 @@ fn main() {
             }
         }
     }
+    // 70 000 spoken zeros (counters narrower than usize overflow there in a debug build), on a normal stack
+    for (code, mk, zero) in [("en", Language::english as fn() -> Language, "zero"), ("fr", Language::french, "zéro"), ("de", Language::german, "null")] {
+        let h = std::thread::spawn(move || {
+            let lang = mk();
+            let text = vec![zero; 70_000].join(" ") + " xyzzy";
+            let r = std::panic::catch_unwind(std::panic::AssertUnwindSafe(|| {
+                let a = text2digits(&text[..text.len() - 6], &lang).map(|s| s.len()).unwrap_or(0);
+                let b = replace_numbers_in_text(&text, &lang, 0.0).len();
+                (a, b)
+            }));
+            r.ok()
+        });
+        handles.push((std::thread::Builder::new().spawn(move || h.join().ok().flatten().map(|(a, b)| a + b).unwrap_or(usize::MAX)).expect("spawn"), format!("{code} {zero:?} x70000 joined by \" \"")));
+    }
     for (h, what) in handles {
         match h.join() {
+            Ok(usize::MAX) => println!("panic {what}"),
             Ok(sum) => println!("ok {what} -> {sum}"),
             Err(_) => println!("panic {what}"),
         }
